@@ -1681,6 +1681,13 @@ func (e *Engine) sharedWrite(st *State, obj int, what string) {
 	if fr := st.top(); fr.fn.Pkg != nil && fr.fn.Pkg == e.modelsPkg {
 		return
 	}
+	// package initialisers (run on demand by the engine, before main by the Go runtime) are
+	// sequenced before every goroutine
+	for _, fr := range st.frames {
+		if fr.fn.Pkg != nil && (fr.fn == fr.fn.Pkg.Func("init") || strings.HasPrefix(fr.fn.Name(), "init#")) {
+			return
+		}
+	}
 	pos := posOf(st, e)
 	rec := AssertRec{Label: "shared-write@" + pos, Pos: pos, Kind: "race", Msg: what + " to shared state without synchronisation | " + e.stackTrace(st)}
 	r, cex := e.model(st, nil, e.cfg.AssertTimeoutMs)
